@@ -126,12 +126,11 @@ def check_scramble(rep, sc, rel):
     rep.ob('R-ALG', 'scramble_pop_ids weight', okw, 'ln prob = sum_a lnC(t_a, d_a) - lnC(T, d)', rel, lp2.lineno, what='multivariate hypergeometric re-dealing weight')
     rep.ob('R-IDX', 'scramble_pop_ids re-deal', okr, 'every entry receives weight * pooled[total]', rel, lp2.lineno, what='entry (d_1..d_P) gets prob * pooled[d_1+..+d_P]')
     # ---- folding
-    last = stm[-1]
+    from sa.extract import two_way_return
     okf = flag_ok
-    if isinstance(last, ast.If) and len(last.body) == 1 and len(last.orelse) == 1 and isinstance(last.body[0], ast.Return) and isinstance(last.orelse[0], ast.Return):
-        t_, a, b = ast.unparse(last.test), ast.unparse(last.body[0].value), ast.unparse(last.orelse[0].value)
-        if t_.startswith('not '):
-            t_, a, b = t_[4:], b, a
+    tw = two_way_return(stm)
+    if tw is not None:
+        t_, a, b = tw
         okf = okf and (t_ == flag or t_ == 'self.folded' and subject != 'self') and a.endswith('.fold()') and a[:-7] == b
     else:
         okf = False
